@@ -21,7 +21,7 @@ CHECKS = {
                 thorough=dict(batches=64, runs=1500, timeout=3000)),
     "C02": dict(engines=["c02"], level="fault_enumeration",
                 quick=dict(batches=16, runs=1500, timeout=900),
-                thorough=dict(batches=64, runs=40000, timeout=3000)),
+                thorough=dict(batches=64, runs=6000, timeout=5400)),
     "C08": dict(engines=["c08"], level="exploration",
                 quick=dict(batches=16, runs=500, timeout=900),
                 thorough=dict(batches=64, runs=1500, timeout=3000)),
